@@ -409,6 +409,7 @@ class Walker:
             fi = self.model.funcs[qual]
             self.I.ctx_stack.append((fi.module, fi.cls))
             try:
+                self.I.steps = 0
                 res = self.I.call_func(qual, [root, ctx], {}, st)
             finally:
                 self.I.ctx_stack.pop()
